@@ -202,6 +202,10 @@ def evaluate(case, verbose=False):
     first = True
     for (label, bcall, sip), (_, acall, _) in zip(blocs, alocs):
         if acall is None:
+            if 'array length=self' in case['anns']:
+                stat['unspec'] += 1      # a length that names the instance parameter; pairing is C04's subject
+                loose[id(bcall.parent)] = '*'
+                continue
             viol.append(('frame', '%s: callable disappeared' % label))
             continue
         if case['callable'] == 'vfunc_inv' and label != 'invoker':
@@ -338,9 +342,15 @@ def menu_for(site):
     return G.SELF_MENU if site == 'self' else G.MENU
 
 
-def ann_sets(tier, site):
-    """Deterministic list of annotation lists for one site."""
-    menu = menu_for(site)
+QUICK_PAIR_SITES = {('function', 0, 'p'), ('function', 0, 'ret'), ('method', 1, 'p'), ('signal', 0, 'p')}
+TRIPLE_CALLABLES = ('function', 'method', 'callback', 'signal')
+
+
+def ann_sets(tier, callable_, layout, site):
+    """Deterministic list of annotation lists for one site (simplest first)."""
+    menu = list(menu_for(site))
+    if site == 'p' and callable_ in ('method', 'vfunc', 'vfunc_inv'):
+        menu.append('array length=self')
     out = [[a] for a in menu]
     if site == 'self':
         return out
@@ -350,23 +360,18 @@ def ann_sets(tier, site):
             for j in range(i + 1, len(menu)):
                 if _key(menu[i]) != _key(menu[j]):
                     out.append([menu[i], menu[j]])
-        for a in inter[0]:
-            for b in inter[1]:
-                for c in inter[2]:
-                    out.append([a, b, c])
-        fam = G.INTERACT_DIR + G.INTERACT_NULL + G.INTERACT_ARR
-        seen = set()
-        for i in range(len(fam)):
-            for j in range(i + 1, len(fam)):
-                for k in range(j + 1, len(fam)):
-                    t = [fam[i], fam[j], fam[k]]
-                    if len(set(_key(x) for x in t)) == 3 and tuple(t) not in seen:
-                        nfam = len(set(0 if x in inter[0] else 1 if x in inter[1] else 2 for x in t))
-                        if nfam >= 2 and not (t[0] in inter[0] and t[1] in inter[1] and t[2] in inter[2]):
-                            seen.add(tuple(t))
-                            out.append(t)
-    else:
-        # quick: pairs inside the interacting families only
+        if callable_ in TRIPLE_CALLABLES:
+            fam = G.INTERACT_DIR + G.INTERACT_NULL + G.INTERACT_ARR
+            for i in range(len(fam)):
+                for j in range(i + 1, len(fam)):
+                    for k in range(j + 1, len(fam)):
+                        t = [fam[i], fam[j], fam[k]]
+                        if len(set(_key(x) for x in t)) == 3:
+                            nfam = len(set(0 if x in inter[0] else 1 if x in inter[1] else 2 for x in t))
+                            if nfam >= 2:
+                                out.append(t)
+    elif (callable_, layout, site) in QUICK_PAIR_SITES:
+        # quick: pairs inside the interacting families only, on one position per callable kind
         fam = G.INTERACT_DIR + G.INTERACT_NULL + G.INTERACT_ARR + ['type utf8', 'closure ctx', 'destroy dn',
                                                                    'scope call']
         for i in range(len(fam)):
@@ -381,8 +386,25 @@ def _key(a):
     return n if n != 'not' else 'not ' + ' '.join(o)
 
 
+def canon(a):
+    """Annotation instance -> class used in violation keys (option values that do not matter to the
+    failing clause are folded so that one defect does not produce dozens of keys)."""
+    n, o = G.parse_ann(a)
+    if n == 'out':
+        return 'out*' if MD.well_formed(n, o) else a
+    if n == 'scope':
+        return 'scope *' if MD.well_formed(n, o) else a
+    if n == 'type':
+        return 'type *' if o and o[0] != 'FooNoSuch' else a
+    if n == 'array':
+        return 'array *' if MD.well_formed(n, o) and 'nosuch' not in a and 'self' not in a else a
+    if n == 'element-type':
+        return 'element-type *'
+    return a
+
+
 def vkey(rule, anns):
-    return '%s|%s' % (rule, '+'.join(anns))
+    return '%s|%s' % (rule, '+'.join(canon(a) for a in anns))
 
 
 def _work(chunk):
@@ -391,7 +413,7 @@ def _work(chunk):
     myviol = []
     for (c, layout, site, kind) in site_list:
         part.add(states=1, evaluations=1)       # the baseline node
-        sets = ann_sets(tier, site)
+        sets = ann_sets(tier, c, layout, site)
         cache = {}
 
         def rules_of(anns, count=False):
@@ -441,7 +463,7 @@ def run(ctx):
     from vt.scan import c01_calib
     tier = ctx.tier
     S = sites()
-    nsets = {s: len(ann_sets(tier, s)) for s in ('p', 'ret', 'self')}
+    nsets = {'%s/%s%d' % (c, st, l): len(ann_sets(tier, c, l, st)) for c in G.CALLABLES for (l, st) in G.site_positions(c)}
     ctx.set(rule='E1 generation tree: every (callable kind x site position x type kind) site of the alphabet, '
                  'every single annotation instance of the menu; quick adds every pair inside the interacting '
                  'families, thorough adds every unordered pair of the whole menu and the interacting triples. '
